@@ -48,19 +48,38 @@ Definition forbidden (c : cred) : bool :=
 Definition closed_answer (f : flow) (a : resp) : bool :=
   error_answer f (r_cls a) && negb (existsb forbidden (r_creds a)).
 
+(* "a call into the storage fails": every injected error value counts, with one exception the
+   storage interface itself makes - GetRefreshTokenInfo "must return ErrInvalidRefreshToken when
+   presented with a token that is not a refresh token" (pkg/op/storage.go): that value from that
+   method is an answer, not a failure.  (ErrDuplicateUserCode from StoreDeviceAuthorization only
+   asks for another attempt: a request that ends without a successful attempt has failed.) *)
+Definition documented_answer (m : method) (kd : kind) : bool :=
+  match m, k_base kd with MGetRefreshTokenInfo, BInvalidRefresh => true | _, _ => false end.
+
+(* the method and value of the plan's failure, read off the observed journal *)
+Definition plan_failure (p : plan) (j : list method) : option (method * kind) :=
+  match p with
+  | PNone => None
+  | PAt k kd => match nth_error j (k - 1) with Some m => Some (m, kd) | None => None end
+  | PMethod m kd => Some (m, kd)
+  end.
+Definition is_failure (p : plan) (j : list method) : bool :=
+  match plan_failure p j with Some (m, kd) => negb (documented_answer m kd) | None => true end.
+
 Definition spec (i : input) (o : observed) : bool :=
   match o with
   | OPanic | OHang => false
-  | Obs hit single cls err creds _ =>
+  | Obs hit single cls err creds j =>
       (* "answers that request with an error": one answer, and it is an error without credentials *)
-      if hit then single && closed_answer (in_flow i) (R cls err creds) else true
+      if hit && is_failure (in_plan i) j then single && closed_answer (in_flow i) (R cls err creds) else true
   end.
 
 (* guards of the theorems: the flow variant is one the fixture can drive; no reached failure
-   hits a (flow, method) pair listed as an open finding (C10_Handlers.excused) *)
+   hits a (flow, method) pair listed as an open finding (C10_Handlers.open_pair) *)
 Definition wf_input (i : input) : bool := wf_flow (in_flow i).
 Definition open_finding (i : input) : bool :=
-  existsb (fun mk => excused (in_flow i) (fst mk)) (faults (in_plan i) (in_prog i)).
+  existsb (fun mk => open_pair (in_flow i) (fst mk)) (faults (in_plan i) (in_prog i)).
+Definition excused (f : flow) (m : method) (kd : kind) : bool := open_pair f m || documented_answer m kd.
 
 Definition obs_eqb (a b : observed) : bool :=
   match a, b with
